@@ -753,10 +753,86 @@ fn gen_c10(rng: &mut Rng, tier: &str, emit: Emit) {
     }
 }
 
+
+fn gen_c09(rng: &mut Rng, tier: &str, emit: Emit) {
+    // exhaustive small scope over pairs of (type, length, value)
+    let st = small_types();
+    for lt in &st {
+        for rt in &st {
+            let ls = all_small(lt, 3);
+            let rs = all_small(rt, 3);
+            for l in &ls {
+                for r in &rs {
+                    emit(line("cmpall", &[l, r]));
+                }
+            }
+        }
+    }
+    for lt in TYPES {
+        for rt in TYPES {
+            for _ in 0..scale(tier, 40) {
+                let ll = gen_len(rng, lt, MAXD);
+                let lbits = gen_bits(rng, ll);
+                let l = vec_token(lt, &lbits, rng.below(3), rng.chance(1, 3));
+                let rcap = rt.cap().unwrap_or(MAXD);
+                // the right operand: equal value at another length, off by one bit somewhere, or unrelated
+                let mut rbits: Vec<bool> = match rng.below(5) {
+                    0 | 1 => {
+                        let rl = match rng.below(4) { 0 => ll, 1 => ll + rng.below(70), 2 => ll.saturating_sub(rng.below(70)), _ => gen_len(rng, rt, MAXD) };
+                        let mut b = lbits.clone();
+                        b.resize(rl, false);
+                        b
+                    }
+                    _ => { let n = gen_len(rng, rt, MAXD); gen_bits(rng, n) }
+                };
+                rbits.truncate(rcap);
+                if !rbits.is_empty() && rng.chance(1, 2) {
+                    let i = match rng.below(4) { 0 => 0, 1 => rbits.len() - 1, 2 => (rbits.len() - 1).min(64 * rng.below(4)), _ => rng.below(rbits.len()) };
+                    rbits[i] = !rbits[i];
+                }
+                let r = vec_token(rt, &rbits, rng.below(3), rng.chance(1, 3));
+                emit(line("cmpall", &[&l, &r]));
+            }
+        }
+    }
+}
+
+fn gen_c02(rng: &mut Rng, tier: &str, emit: Emit) {
+    // the trait method div_rem::<B> with B of every implementation (including B = Bv)
+    let st = small_types();
+    for lt in &st {
+        for rt in &st {
+            for l in all_small(lt, 3) {
+                for r in all_small(rt, 3) {
+                    emit(line("divrem", &[&l, &r]));
+                }
+            }
+        }
+    }
+    for lt in TYPES {
+        for rt in TYPES {
+            for _ in 0..scale(tier, 10) {
+                let ll = gen_len(rng, lt, 180).min(180);
+                let rl = match rng.below(4) { 0 => ll, 1 => ll + rng.below(80), _ => gen_len(rng, rt, 180) }.min(rt.cap().unwrap_or(240)).min(240);
+                let l = gen_vec_len(rng, lt, ll);
+                let mut rb = gen_bits(rng, rl);
+                if rng.chance(1, 2) {
+                    // a small divisor value in a long divisor
+                    let keep = rng.below(ll.min(rl) + 1);
+                    for i in keep..rl { rb[i] = false; }
+                }
+                emit(line("divrem", &[&l, &vec_token(rt, &rb, rng.below(2), rng.chance(1, 3))]));
+            }
+        }
+    }
+}
+
 pub fn generate(fam: &str, seed: u64, tier: &str, emit: Emit) {
     let mut rng = Rng::new(seed ^ fam.bytes().fold(0u64, |a, c| a.wrapping_mul(131).wrapping_add(c as u64)));
     let rng = &mut rng;
     match fam {
+        "C02" => gen_c02(rng, tier, emit),
+        "C09" => gen_c09(rng, tier, emit),
         "C03" => gen_c03(rng, tier, emit),
         "C05" => gen_c05(rng, tier, emit),
         "C06" => gen_c06(rng, tier, emit),
